@@ -130,9 +130,14 @@ func (d *dumpStruct) loopHandleKV(s reflect.StructField, tv reflect.Value, isNee
 		tmpIndex := 0
 		for mapObj.Next() {
 			// 把 key 处理成字符串
-			d.buf.WriteByte('"')
+			isStrKey := mapObj.Key().Kind() == reflect.String // string 类型的 key 已带引号
+			if !isStrKey {
+				d.buf.WriteByte('"')
+			}
 			d.loopHandleKV(d.nullStructFiled, mapObj.Key(), false)
-			d.buf.WriteByte('"')
+			if !isStrKey {
+				d.buf.WriteByte('"')
+			}
 			d.buf.WriteString(":")
 			d.loopHandleKV(d.nullStructFiled, mapObj.Value(), false)
 			if tmpIndex < mapLen-1 {
